@@ -43,6 +43,9 @@ type Program struct {
 	pkgOfFn map[*ast.FuncDecl]*packages.Package
 
 	loadedPkgs []*packages.Package
+
+	// Normalised lists the rewrites applied to the loaded syntax (normalise.go).
+	Normalised []string
 }
 
 // Load loads root/... and fails on any error: an analysis of a partially
@@ -118,6 +121,7 @@ func Load(root string) (*Program, error) {
 		}
 	}
 	p.loadedPkgs = pkgs
+	p.inlineStageRunners()
 	return p, nil
 }
 
